@@ -831,6 +831,16 @@ def check_threshold_monotone(ctx, index, summary, level):
                         if vb < va - 1e-9:
                             ctx.violate("C08", "ap_monotone", "%s %s drops from %r to %r when the %s threshold is loosened" % (level, name, va, vb, mode_name),
                                         {"label": lab, "strict": ta[k], "loose": tb[k]}, index)
+                for k, lab in enumerate(labels):
+                    la, lb = ma.aps[k].tp_list, mb.aps[k].tp_list
+                    if la and lb and len(la) == len(lb) and ma.aps[k].objects_results_num > 0:
+                        if lb[-1] < la[-1] - 1e-9:
+                            ctx.violate("C08", "tp_monotone", "%s TP count drops from %r to %r when the %s threshold is loosened" % (level, la[-1], lb[-1], mode_name),
+                                        {"label": lab, "strict": ta[k], "loose": tb[k]}, index)
+                        # prefix-wise: every ranked result that is a TP under the stricter threshold stays one
+                        if any(y < x - 1e-9 for x, y in zip(la, lb)):
+                            ctx.violate("C08", "tp_monotone", "%s: a ranked result is a TP under the stricter %s threshold only" % (level, mode_name),
+                                        {"label": lab, "strict": ta[k], "loose": tb[k]}, index)
                 if ma.map != float("inf") and mb.map != float("inf"):
                     # mAP is a mean over defined labels; the defined set is the same for both thresholds
                     if mb.map < ma.map - 1e-9:
